@@ -1,7 +1,7 @@
 //! Contains second pass builder of AVRA-rs
 
 use crate::{
-    builder::pass1::BuildResultPass1,
+    builder::pass1::{advance, BuildResultPass1},
     context::{CommonContext, Context},
     directive::GetData,
     expr::Expr,
@@ -36,19 +36,17 @@ pub fn build_pass_2(
         // TODO: Rewrite to correct ordering of segment offsets and sizes
         match segment.t {
             SegmentType::Code => {
-                // pad to address
-                for _ in (code_start_address as i32)..segment.address as i32 - code.len() as i32 / 2
-                {
-                    // Pushing nop command for spaces
-                    code.extend(vec![0x00, 0x00]);
+                // pad to address with nop commands for spaces
+                let target = segment.address as usize * 2;
+                if code.len() < target {
+                    code.resize(target, 0x00);
                 }
             }
             SegmentType::Eeprom => {
-                // pad to address
-                for _ in (eeprom_start_address as i32)..segment.address as i32 - eeprom.len() as i32
-                {
-                    // Pushing empty data for spaces
-                    eeprom.extend(vec![0x00]);
+                // pad to address with empty data for spaces
+                let target = segment.address as usize;
+                if eeprom.len() < target {
+                    eeprom.resize(target, 0x00);
                 }
             }
             // Data not writed anywhere
@@ -93,7 +91,7 @@ fn pass_2_internal(segment: &Segment, common_context: &CommonContext) -> Result<
                         Ok(ok) => ok,
                         Err(e) => bail!("{}, {}", e, line),
                     };
-                    cur_address += complete_op.len() as u32 / 2;
+                    cur_address = advance(cur_address, (complete_op.len() / 2) as u64, 1, line)?;
                     code_fragment.extend(complete_op);
                 } else {
                     bail!(
@@ -114,15 +112,19 @@ fn pass_2_internal(segment: &Segment, common_context: &CommonContext) -> Result<
                     Ok(data) => data,
                     Err(e) => bail!("{}, {}", e, line),
                 };
-                cur_address += if let SegmentType::Code = segment.t {
-                    data.len() as u32 / 2
+                let units = if let SegmentType::Code = segment.t {
+                    data.len() / 2
                 } else {
-                    data.len() as u32
+                    data.len()
                 };
+                cur_address = advance(cur_address, units as u64, 1, line)?;
                 code_fragment.extend(data);
             }
             Item::ReserveData(size) => {
-                cur_address += *size as u32;
+                if *size < 0 {
+                    bail!(".byte needs a size that is not negative, {}", line);
+                }
+                cur_address = advance(cur_address, *size as u64, 1, line)?;
                 for _ in 0..*size {
                     code_fragment.push(0x0);
                 }
